@@ -150,9 +150,10 @@ package skiplist
 // here is the walk itself (every node visited is the head or a live node, the index 0 is
 // in range, the walk advances); that this chain is exactly the live keys in ascending
 // order with forward pointers to larger keys only is the invariant (fingersok, nearest).
-// Formatting (fmt, bytes.Buffer) is not reasoned about; the node printer is trusted.
+// Formatting (fmt, bytes.Buffer) is not reasoned about; the node printer is verified for
+// memory safety and purity only (it dereferences the fingers it prints).
 //@ func (*tSkipNode) String
-//@   trusted
+//@   loops 1
 //@   pure
 //@   requires self != nil
 
